@@ -1114,6 +1114,14 @@ class NumpyModel:
             b = interp.cur(expr.value)
             if b is not None and b.ty == 'obj' and b.oid in st.heap:
                 st.heap[b.oid][expr.attr] = new
+        elif isinstance(expr, ast.Subscript) and isinstance(expr.value, (ast.Name, ast.Attribute)):
+            # d[k].append(x) and friends: the entry of the mapping is the updated container
+            b = interp.cur(expr.value)
+            if b is not None and b.ty == 'dict':
+                k = interp.cur(expr.slice)
+                self.rebind(interp, st, frame, expr.value, b.w(elem=join(b.elem, new) if b.elem is not None else new,
+                                                               keyelem=join(b.keyelem, k) if (b.keyelem is not None and k is not None) else (k if b.keyelem is None and not b.kw else b.keyelem),
+                                                               empty_init=None))
 
     # ------------------------------------------------------------------ array attributes / methods
     def array_attr(self, interp, st, base, attr, node):
